@@ -265,7 +265,7 @@ class Ctx:
 
     # ------------------------------------------------------------------ REAL / ROUND obligations
     def round_bound(self, o, term, spec, w, K, positive=True, mag=None, assume=None, key=None, mode='ROUND',
-                    out_index=0, underflow=False):
+                    out_index=0, underflow=False, assume_defined=False):
         """obligation (ROUND): for all real inputs satisfying the assumptions and all admissible rounding errors,
         |impl - spec| <= K * 2^-p * M  where M = |spec| or mag(A, xs).  (REAL): impl == spec exactly.
         spec/mag/assume are functions (A, xs) -> value / value / list of constraints over the Z3Alg."""
@@ -278,7 +278,7 @@ class Ctx:
         T = term.ty
         nops = tm.count_ops(term)
         if mode == 'ROUND' and nops > COMPOSITIONAL_ABOVE:
-            done = self.round_compositional(o, term, spec, w, K, positive, mag, assume, out_index, nops)
+            done = self.round_compositional(o, term, spec, w, K, positive, mag, assume, out_index, nops, assume_defined)
             if done:
                 return o
         try:
@@ -292,6 +292,9 @@ class Ctx:
         E = spec(A, xs)
         extra = list(assume(A, xs)) if assume is not None else []
         undefined = [z3.Not(c) for c in it.side]
+        if assume_defined:
+            extra += list(it.side)
+            undefined = []
         if mode == 'ROUND':
             M = mag(A, xs) if mag is not None else A.abs(E)
             u = z3.RealVal('1/%d' % (1 << tm.FPREC[T]))
@@ -304,7 +307,7 @@ class Ctx:
         rp = self.round_replay(w, spec, K if mode == 'ROUND' else 0, mag, out_index, positive)
         return self.decide(o, cons, w, rp, grid=False)
 
-    def round_compositional(self, o, term, spec, w, K, positive, mag, assume, out_index, nops):
+    def round_compositional(self, o, term, spec, w, K, positive, mag, assume, out_index, nops, assume_defined=False):
         """large expressions: solver-checked local error lemmas composed bottom-up (phqv/fea.py), then one
         polynomial inequality  c*u*M + |E_impl - E_spec| <= K*u*M_spec  over the inputs only"""
         from . import fea
@@ -343,6 +346,9 @@ class Ctx:
         u = fea.rv(an.u)
         diff = nd.E - E
         undefined = [z3.Not(c) for c in an.real.side]
+        if assume_defined:
+            extra += list(an.real.side)
+            undefined = []
         bad = z3.Or(fea.rv(nd.c) * u * nd.M + A.abs(diff) > K * u * M, *undefined)
         cons = an.real.defs + A.defs + ([x > 0 for x in xs] if positive else []) + extra + [bad]
         o.hash = hashlib.md5((o.oid + 'comp' + str(term.id)).encode()).hexdigest()
